@@ -43,6 +43,14 @@ func routeHandler(name string, vars []string) rux.HandlerFunc {
 			rec.ParamVia[v] = c.Param(v)
 		}
 		rec.ParamVia["__undefined__"] = c.Param("__undefined__")
+		if c.Req.Header.Get("X-Edit-Params") != "" && c.Params != nil {
+			// the handler works on ITS parameters in place (normalising an id, adding a derived value)
+			rec.Extra["params_map_itself"] = nil
+			for k := range c.Params {
+				c.Params[k] = "edited-by-an-earlier-request"
+			}
+			c.Params["added-by-an-earlier-request"] = "x"
+		}
 		c.WriteString(name)
 	}
 }
@@ -77,12 +85,12 @@ func runRouting(e *Env, params bool) {
 	if !params {
 		e.Rule = "route tables (1..12 routes; up to 40 in the thorough tier) drawn from a pattern AST (literal/var/prefix+var+suffix segments, 15 regex classes incl. built-in and user-defined global vars and inline regexes on global-named variables, nested optional tails, bare literal tails, '.' in literals; random method subsets; overlapping patterns derived from earlier ones), cache off/on; probes = instantiations, one-step mutations and class near-misses of every pattern + random paths, x 9 methods, lower-case and unknown method tokens, via Match and ServeHTTP. Oracle: backtracking matcher over the AST + documented priority (static, literal-first-segment group, rest; earliest wins). A probe is non-trivial when >= 2 routes qualify or it is a near-miss/mutation of a registered pattern; distinct by (table, method, path). Also varied: a quarter of the routes with literal leading segments are registered inside one or two nested Group calls (inner prefix with or without its slash); options applied through New, WithOptions or half and half; a fifth of the routers use UseEncodedPath (the ServeHTTP side of the model works on URL.EscapedPath()) and a fifth StrictLastSlash; a third of the ServeHTTP probes carry a query string; probe mutations append 1..3 slashes and non-ASCII white space."
 	} else {
-		e.Rule = "same tables/probes as C01; every selected dynamic route's params are checked against ALL decompositions the AST matcher finds (key set == variable names, round trip reproduces the normalised path, each present value satisfies its class, unique decomposition => equal), static => no params, handler view == Match view, cache hit == miss. Non-trivial when the pattern has >= 2 vars, an optional part, a literal prefix/suffix in the variable's segment, or the observation is a cache hit; distinct by (pattern, method, path, hit). Also: re-dispatch probes (the handler of a dynamic route calls HandleContext for the path of another route; the second handler must see the parameters of its own match only)."
+		e.Rule = "same tables/probes as C01; every selected dynamic route's params are checked against ALL decompositions the AST matcher finds (key set == variable names, round trip reproduces the normalised path, each present value satisfies its class, unique decomposition => equal), static => no params, handler view == Match view, cache hit == miss. Non-trivial when the pattern has >= 2 vars, an optional part, a literal prefix/suffix in the variable's segment, or the observation is a cache hit; distinct by (pattern, method, path, hit). Also: re-dispatch probes (the handler of a dynamic route calls HandleContext for the path of another route; the second handler must see the parameters of its own match only). A third of the dynamic ServeHTTP probes are followed by a request whose handler edits its own Params map in place and by a caller editing the map Match returned; the next Match and the next request for the same path must again carry exactly the captured substrings."
 	}
 	e.Assumptions = []string{
 		"patterns stay inside the documented grammar (<= 1 variable per segment, literals without regex metacharacters other than '.')",
 		"the reference matcher and the 11 class regexes are the trusted statement of the documented semantics",
-		"handlers treat Params as read-only",
+		"handlers treat Params as read-only (C02: a handler may edit its own map in place; that must stay with its request)",
 	}
 	nTables := e.N(4000, 400000)
 	e.RunCases("tables", nTables, 0, func(t *T) { routingCase(t, params) })
@@ -286,6 +294,30 @@ func routingCase(t *T, params bool) {
 					retained = append(retained, retainedParams{m, fmtParams(rec.Params), method + " " + path})
 				}
 				checkParams(t, tb, got, method, path, snpath, rec.Params, false, "ServeHTTP handler", &probeLog)
+				if !tb.Routes[got].Pat.IsStatic() && chance(r, 1, 3) {
+					// a request whose handler edits its own Params map in place (and one whose caller edits
+					// the map Match returned): the parameters of later requests are those of their own match
+					ereq := NewReq(method, path)
+					ereq.Header.Set("X-Edit-Params", "1")
+					_, _, _ = Serve(router, ereq)
+					if _, mps, _ := router.Match(method, path); mps != nil {
+						for k := range mps {
+							mps[k] = "edited-by-an-earlier-caller"
+						}
+						mps["added-by-an-earlier-caller"] = "x"
+					}
+					t.Count("params.after_inplace_edit_by_earlier_request", 1)
+					if route2, ps2, _ := router.Match(method, path); route2 != nil {
+						if g2 := routeIndex(tb, route2.Name()); g2 >= 0 {
+							checkParams(t, tb, g2, method, path, npath, copyParams(ps2), capacity >= 1, "Match after an earlier request edited its own Params in place", &probeLog)
+						}
+					}
+					if rec2, _, pan2 := Serve(router, NewReq(method, path)); !pan2 && rec2.Route != "" {
+						if g2 := routeIndex(tb, rec2.Route); g2 >= 0 {
+							checkParams(t, tb, g2, method, path, snpath, rec2.Params, capacity >= 1, "ServeHTTP handler after an earlier request edited its own Params in place", &probeLog)
+						}
+					}
+				}
 				// c.Param(name) view
 				vs, _ := tb.Routes[got].Pat.Vars()
 				for _, v := range vs {
